@@ -202,6 +202,10 @@ func (v Variable) Resolve(env Environ) (string, Variable) {
 			return name, v
 		}
 		name = v.Str // keep name for the next iteration
+		if name == "" {
+			// a nameref without a target, like `declare -n ref=`
+			return "", Variable{}
+		}
 		v = env.Get(name)
 	}
 	return name, Variable{}
